@@ -1,7 +1,7 @@
 (* C16 correspondence cases: the numeric skeleton of an input together with what the real parser
    did with it (in a sandboxed child process): ROk / RErr, or RPanic for a panic, an abort
    (stack overflow, failed allocation), a timeout or a heap use unrelated to the input size. *)
-From FB Require Export C16.Model C16.ModelText C16.ModelEv Base.Run.
+From FB Require Export C16.Model C16.ModelText C16.ModelEv C16.ModelClsRead Base.Run.
 From FB Require C16.SitesGen.
 
 Inductive real := ROk | RErr | RPanic.
@@ -22,7 +22,8 @@ Inductive case :=
        bootstrap arguments (counting nested ones) found in the instruction of the accepted tree *)
 | CArgSize (desc : str) (r : real)                    (* invokeinterface with this descriptor: what the class WRITER did *)
 | CUnesc (cell : str) (r : real) (got : str)          (* tiny v2 class comment cell and the comment the reader stored, both as UTF-8 bytes *)
-| CText (kind n : N) (input : list N) (r : real).     (* a whole text file (bytes): 0 tiny v2 with n namespaces, 1 tiny diff, 2 Enigma, 3 nests *)
+| CText (kind n : N) (input : list N) (r : real)      (* a whole text file (bytes): 0 tiny v2 with n namespaces, 1 tiny diff, 2 Enigma, 3 nests *)
+| CClass (bytes : list N) (r : real).                 (* a whole class file: what duke::read_class did with it *)
 
 (* the model's answer and the observed one agree exactly *)
 Definition same {A} (m : out A) (r : real) : bool :=
@@ -73,4 +74,5 @@ Definition check (c : case) : bool :=
   | CText k n input r =>
       same (if k =? 0 then tiny_v2_out (N.to_nat n) input else if k =? 1 then tiny_diff_out input
             else if k =? 2 then enigma_out input else nests_out input) r
+  | CClass bytes r => same (read_class_out bytes) r     (* the WHOLE class reader, exact outcome class *)
   end.
